@@ -159,6 +159,22 @@ int EGLPNUM_TYPENAME_ILLbasis_load (
 	int i, j, ncols = lp->O->ncols, nrows = lp->O->nrows, nstruct = lp->O->nstruct;
 	int basic = 0, nonbasic = 0;
 
+	/* baz[] has exactly nrows entries: a basis that does not mark exactly nrows
+	 * variables as basic must be refused before anything is written */
+	for (i = 0; i < nstruct; i++)
+		if (cstat[i] == QS_COL_BSTAT_BASIC)
+			basic++;
+	for (i = 0; i < nrows; i++)
+		if (rstat[i] == QS_ROW_BSTAT_BASIC)
+			basic++;
+	if (basic != nrows)
+	{
+		QSlog("basis has %d basic variables for %d rows", basic, nrows);
+		rval = 1;
+		goto CLEANUP;
+	}
+	basic = 0;
+
 	EGLPNUM_TYPENAME_ILLbasis_free_basisinfo (lp);
 	EGLPNUM_TYPENAME_ILLbasis_init_basisinfo (lp);
 	rval = EGLPNUM_TYPENAME_ILLbasis_build_basisinfo (lp);
